@@ -43,6 +43,10 @@ def cases(tier, seed):
     # flip patterns of weight <= t at structured positions
     for mu, delta in ((5, 3), (5, 7), (6, 3), (6, 5), (7, 3), (8, 3), (8, 5)):
         yield f"C09|long-bch|mu={mu},delta={delta}", {"longbch": (mu, delta), "tier": tier}
+    # a code with 2^13 / 2^16 codewords under the exhaustive maximum-likelihood decoder (BCH(31,16), t=3, and its (28,13) shortening through a generic
+    # generator matrix) over BPSK: structured and pseudo-random messages, ideal channel and <= t flips
+    for nm in ("bch31_16", "short28_13"):
+        yield f"C09|long-ml|{nm}", {"longml": nm, "tier": tier}
     # long low-order Reed-Muller codes (n = 64 .. 256, t up to 127) over a BPSK link with the majority-logic decoder: all messages, patterns of exactly
     # t flips (prefix, suffix, even positions, odd positions, strided, two halves)
     for r, m in ((0, 6), (1, 6), (0, 7), (1, 7), (0, 8), (1, 8)):
@@ -59,7 +63,7 @@ def cases(tier, seed):
 
 
 def component_of(p):
-    return "long-bch" if "longbch" in p else "long-rm" if "longrm" in p else p.get("alt") or p.get("pair", "mixing")
+    return "long-bch" if "longbch" in p else "long-rm" if "longrm" in p else "long-ml" if "longml" in p else p.get("alt") or p.get("pair", "mixing")
 
 
 def build_pair(pr):
@@ -97,6 +101,8 @@ def execute(p, res):
         return alternating_case(p, res)
     if "longrm" in p:
         return long_rm_case(p, res)
+    if "longml" in p:
+        return long_ml_case(p, res)
     if "pairs" in p:
         for pr in p["pairs"]:
             run_pair({"pair": pr, "spec": p["spec"], "tier": p["tier"]}, res)
@@ -159,6 +165,53 @@ def alternating_case(p, res):
                 break
     res.outcome((pr, "pi4qpsk"))
     res.sample({"pair": pr, "n": n, "k": k, "blocks_per_row": blocks})
+
+
+def long_ml_case(p, res):
+    import torch
+    from kaira.channels import LambdaChannel, PerfectChannel
+    from kaira.constraints import IdentityConstraint
+    from kaira.models.channel_code import ChannelCodeModel
+    from kaira.models.fec import decoders as D
+    from kaira.models.fec import encoders as E
+    from kaira.modulations import BPSKDemodulator, BPSKModulator
+    nm = p["longml"]
+    base = E.BCHCodeEncoder(5, 7)
+    if nm == "bch31_16":
+        enc = base
+    else:
+        G = base.generator_matrix                       # systematic: shorten by dropping three message rows and their information columns
+        info = [int(i) for i in base.information_set.tolist()] if hasattr(base, "information_set") else list(range(16))
+        keep_rows = list(range(3, 16))
+        drop_cols = {info[i] for i in range(3)}
+        Gs = G[keep_rows][:, [c for c in range(31) if c not in drop_cols]]
+        enc = E.LinearBlockCodeEncoder(generator_matrix=Gs.clone())
+    n, k = int(enc.code_length), int(enc.code_dimension)
+    dec = D.BruteForceMLDecoder(enc)
+    t = 3
+    rows = [[0] * k, [1] * k, [i % 2 for i in range(k)], [1] + [0] * (k - 1), [0] * (k - 1) + [1], [1, 1, 1] + [0] * (k - 3), [0] * (k - 3) + [1, 1, 1]]
+    rows += torch.randint(0, 2, (9, k), generator=torch.Generator().manual_seed(31 + k)).tolist()
+    msgs = torch.tensor(rows, dtype=torch.float32)
+    mod, dem = BPSKModulator(), BPSKDemodulator()
+    cfg = f"{nm},bpsk"
+    pats = [()] + [(a,) for a in (0, n // 2, n - 1)] + [(0, n - 1), (1, n // 2), (0, 1, 2), (n - 3, n - 2, n - 1), (0, n // 2, n - 1), (2, 11, 23)]
+    for pat in pats:
+        def ch(s_, *a, pat=pat, **k2):
+            s_ = s_.clone()
+            for q_ in pat:
+                s_[..., q_] = -s_[..., q_]
+            return s_
+        try:
+            out = ChannelCodeModel(enc, IdentityConstraint(), mod, LambdaChannel(ch) if pat else PerfectChannel(), dem, dec)(msgs)
+        except Exception as e:  # noqa: BLE001
+            res.viol("long-ml", f"{cfg},flip{list(pat)}", "raises", f"{type(e).__name__}: {str(e)[:200]}")
+            continue
+        res.ev(msgs.shape[0], nontrivial=msgs.shape[0] if pat else 0, transitions=1)
+        if tuple(out.shape) != tuple(msgs.shape) or not torch.equal(out.to(torch.float32), msgs):
+            i = 0 if tuple(out.shape) != tuple(msgs.shape) else int((out.to(torch.float32) != msgs).any(dim=1).nonzero()[0])
+            res.viol("long-ml", f"{cfg},flip{list(pat)}", "<=t-flips" if pat else "ideal", f"[{n},{k}] code with the exhaustive ML decoder: message {msgs[i].tolist()} with flips at {list(pat)} came back as {out[i].tolist() if out.dim() == 2 else tuple(out.shape)}", {"pattern": list(pat)})
+    res.outcome(("long-ml", n, k))
+    res.sample({"n": n, "k": k, "t": t, "patterns": len(pats)})
 
 
 def long_rm_case(p, res):
